@@ -151,7 +151,35 @@ def mentions_closure(text, roots):
     return seen
 
 
-def annotation_gaps(text, info, names, degraded):
+IMPLICIT_CALLS = {'from', 'into', 'try_from', 'try_into', 'clone', 'default', 'fmt', 'eq', 'ne', 'cmp', 'partial_cmp', 'drop', 'deref', 'hash', 'new', 'build'}
+
+
+def called_by(text, names):
+    """short names called (call-shaped mentions: `g(`, `x.g(`, `T::g(`, `T::g` as a function value) from the bodies of the
+    functions `names` (verifier table names `module::[Type::]short`; definitions of one short name within a module are merged)"""
+    plain = extract.strip_generated(text)
+    mods = [(m.start(), m.group(1)) for m in re.finditer(r'^(?:pub(?:\([a-z]+\))? )?mod (\w+) \{', plain, flags=re.M)]
+    want = set((n.split('::')[0], re.split(r'__nec_|__ref_', n.split('::')[-1])[0]) for n in names)
+    out = set()
+    for m in re.finditer(r'\bfn\s+([A-Za-z0-9_]+)', plain):
+        encl = [x for x in mods if x[0] <= m.start()]
+        if ((encl[-1][1] if encl else ''), m.group(1)) not in want:
+            continue
+        b = plain.find('{', m.end())
+        sc = plain.find(';', m.end())
+        if b < 0 or (0 <= sc < b):
+            continue
+        try:
+            e = extract.match_brace(plain, b)
+        except Exception:
+            continue
+        seg = plain[b:e]
+        out |= set(re.findall(r'\b([a-z_][A-Za-z0-9_]*)\s*(?:::<[^>]*>)?\s*\(', seg))
+        out |= set(re.findall(r'::([a-z_][A-Za-z0-9_]*)\b(?!\s*(?:::|\(|<))', seg))
+    return out
+
+
+def annotation_gaps(text, info, names, degraded, lost=()):
     """For each failing function: reasons why its proof may fail for lack of ANNOTATIONS rather than because the code is
     wrong: (i) it calls a function that is new on this tree and therefore has no contract, (ii) it passes a closure that is
     new on this tree and has no `ensures`, (iii) it calls a function whose contract was dropped for this run.  A failure with
@@ -177,6 +205,7 @@ def annotation_gaps(text, info, names, degraded):
     for mname, bt in info.get('base_text', {}).items():
         base_pairs |= set((mname,) + x for x in typed_fns(bt))
     base_fns = set(n for l in info.get('base_fns', {}).values() for n in l)
+    base_all = re.sub(r'\s+', '', '\n'.join(re.sub(r'/\*.*?\*/', '', re.sub(r'//[^\n]*', '', bt), flags=re.S) for bt in info.get('base_text', {}).values()))
     nocontract = set(x.split('::')[-1].split('#')[0] for x in degraded if x.endswith('(no contract)'))
     mods = [(m.start(), m.group(1)) for m in re.finditer(r'^(?:pub(?:\([a-z]+\))? )?mod (\w+) \{', text, flags=re.M)]
     real_fns = set()
@@ -237,6 +266,8 @@ def annotation_gaps(text, info, names, degraded):
             words = set(re.findall(r'[A-Za-z_][A-Za-z0-9_]*', plain))
             for w in sorted(words & new_fns):
                 reasons.append('calls-new-function-without-contract:' + w)
+            for w in sorted((words & set(lost)) - {short}):
+                reasons.append('calls-function-whose-contract-anchor-was-lost:' + w)
             for w in sorted(words & nocontract):
                 reasons.append('calls-function-whose-contract-was-dropped-this-run:' + w)
             # closures in real code: `|params|` or `||` not followed by an inserted `ensures`
@@ -257,9 +288,55 @@ def annotation_gaps(text, info, names, degraded):
                     k = mm.end()
                     continue
                 k += 1
+            # (iv) operators Verus' default mode leaves uninterpreted (shifts, remainder, xor, division): a failed proof
+            # of code that newly uses one - in the body or in a constant the body names - says nothing about the code
+            code = plain
+            for w in sorted(w for w in words if re.fullmatch(r'[A-Z][A-Z0-9_]{2,}', w)):
+                for cm in re.finditer(r'\bconst\s+' + w + r'\s*:[^=;]*=\s*([^;]+);', extract.strip_generated(text)):
+                    code += '\n' + cm.group(1)
+            # (v) calls of functions from outside the crate that the reviewed tree never makes: the verifier knows such a
+            # function only through whatever specification its library happens to carry (often none about the result)
+            ext = set(re.sub(r'\s+', '', m_.group(1)) + '(' for m_ in re.finditer(r'((?:\b[A-Z][A-Za-z0-9_]*(?:<[^>()]*>)?::)+[a-z_][A-Za-z0-9_]*)\s*\(', exotic_strip(plain)))
+            ext |= set('.' + m_.group(1) + '(' for m_ in re.finditer(r'\.\s*([a-z_][A-Za-z0-9_]*)\s*(?:::<[^>]*>)?\s*\(', exotic_strip(plain)))
+            crate_types = set(re.findall(r'\b(?:struct|enum|trait|type|union)\s+([A-Z][A-Za-z0-9_]*)', extract.strip_generated(text))) | {'Self'}
+            for tok in sorted(ext):
+                ids = re.findall(r'[A-Za-z0-9_]+', tok)
+                nm = ids[-1]
+                outside = (ids[0] not in crate_types) if not tok.startswith('.') else (nm not in real_fns and nm not in base_fns)
+                if outside and tok not in base_all:
+                    reasons.append('calls-external-function-the-reviewed-tree-never-calls:' + tok[:-1])
+            for snip, op in exotic_ops(code):
+                if snip not in base_all:
+                    reasons.append('uses-operator-outside-the-default-solver-theory:' + op)
         if reasons:
             out[n] = sorted(set(reasons))
     return out
+
+
+def exotic_strip(code):
+    """code without comments, string and char literals"""
+    code = re.sub(r'//[^\n]*', '', code)
+    code = re.sub(r'/\*.*?\*/', '', code, flags=re.S)
+    code = re.sub(r'"(?:[^"\\]|\\.)*"', '""', code)
+    return re.sub(r"'(?:[^'\\]|\\.)'", "''", code)
+
+
+def exotic_ops(code):
+    """[(whitespace-free snippet around the operator, operator)] for shifts, `%`, `^`, `/` in real code (comments, string and
+    char literals removed; `>>` closing generics is not a shift)"""
+    code = re.sub(r'//[^\n]*', '', code)
+    code = re.sub(r'/\*.*?\*/', '', code, flags=re.S)
+    code = re.sub(r'"(?:[^"\\]|\\.)*"', '""', code)
+    code = re.sub(r"'(?:[^'\\]|\\.)'", "''", code)
+    res = []
+    for m in re.finditer(r'((?:[\w.]+|[)\]])\s*)(<<=?|>>=?|%=?|\^=?|/=?)(\s*(?:[\w.]+|[(-]))', code):
+        op = m.group(2)
+        if op.startswith('>>') and not re.search(r'[\w)\]]\s*$', m.group(1)):
+            continue
+        if op.startswith('>>') and re.search(r'<[^;(){}]*$', code[max(0, m.start() - 80):m.start() + 1]) and not re.match(r'\s*[\d(]', m.group(3)):
+            continue
+        res.append((re.sub(r'\s+', '', m.group(0)), op))
+    return res
 
 
 def callee_closure(text, tab, roots, maxdef=6):
@@ -496,9 +573,18 @@ def main():
             if kind in ('body', 'nec', 'ref'):
                 roots.add(re.split(r'__nec_|__ref_', pat.split('::')[-1])[0])
         names = set(x.split('::')[-1].split('#')[0] for x in degraded)
-        reach = mentions_closure(text, [r for r in roots if '*' not in r])
+        # which degraded functions can this property reach?  Its own functions (pattern match on the short name), whatever the
+        # property's obligation set - listed functions plus their callee closure - calls by name, and the names Rust calls
+        # without writing them (`?` -> From::from, `==` -> eq, ...)
         star = [r for r in roots if '*' in r]
-        hit = sorted(n for n in names if n in reach or any(fnmatch.fnmatchcase(n, sp) for sp in star))
+        own = sorted(set(n for pat, kind in obligations.OBLIGATIONS[pid] if kind in ('body', 'nec', 'ref') for n in tab
+                         if fnmatch.fnmatchcase(n, pat) and not n.startswith('kani:')))
+        oset = own + ([] if pid in getattr(obligations, 'NO_CLOSURE', ()) else callee_closure(text, tab, own))
+        reach = called_by(text, oset) | IMPLICIT_CALLS
+        pats = [(pat.split('::')[0], re.split(r'__nec_|__ref_', pat.split('::')[-1])[0]) for pat, kind in obligations.OBLIGATIONS[pid] if kind in ('body', 'nec', 'ref')]
+        hit = sorted(set(x.split('::')[-1].split('#')[0] for x in degraded
+                         if x.split('::')[-1].split('#')[0] in reach
+                         or any(fnmatch.fnmatchcase(x.split('::')[0], pm) and fnmatch.fnmatchcase(x.split('::')[-1].split('#')[0], ps) for pm, ps in pats)))
         if hit:
             why = ';'.join('%s:%s' % (k, v) for k, v in degrade_why.items() if k.split('::')[-1].split('#')[0] in hit)
             return undecided('verifier-cannot-process-the-current-body-of:' + ','.join(hit) + ':' + why[:200], {'trusted_base': [], 'degraded_functions': degraded})
@@ -533,7 +619,11 @@ def main():
                 if ('kani:' + n, kind) not in obl:
                     obl.append(('kani:' + n, kind))
             continue
-        hits = sorted(n for n in tab if fnmatch.fnmatchcase(n, pat) and not n.startswith('kani:') and (kind == 'nec' or '__nec_' not in n) and (kind == 'ref' or '__ref_' not in n))
+        # items nested inside a copy (a function-local `const`, a closure) are not the copy: a necessity / refusal copy is
+        # the item whose own name carries the marker
+        hits = sorted(n for n in tab if fnmatch.fnmatchcase(n, pat) and not n.startswith('kani:')
+                      and (('__nec_' in n.split('::')[-1]) if kind == 'nec' else '__nec_' not in n)
+                      and (('__ref_' in n.split('::')[-1]) if kind == 'ref' else '__ref_' not in n))
         if not hits:
             return undecided('obligation-lost:' + pat)
         for n in hits:
@@ -596,6 +686,22 @@ def main():
                     stability['changed_outcome'].append(n)
                     break
     failed = [(n, k) for n, k in obl if not ok(n, k)]
+    # Second back end.  A proof by either back end is a proof: where a complete Kani harness states the same postcondition of
+    # the same real function for its whole input domain, an obligation Verus could not discharge (e.g. a constant spelled with
+    # an operator Z3 leaves uninterpreted) is discharged by that harness - and if the harness fails, its counterexample is
+    # the failing input.
+    second = {}
+    for n, k in failed:
+        if k != 'body' or n.startswith('kani:'):
+            continue
+        for rx, hs in getattr(obligations, 'KANI_EQUIVALENT', []):
+            if re.fullmatch(rx, n):
+                if kani is None:
+                    kani = runkani.run_all()
+                if kani['harnesses'] and kani.get('complete_summary') and all(kani['harnesses'].get(h, {}).get('ok', False) for h in hs):
+                    second[n] = hs
+                    tab[n] = dict(tab[n], success=True, discharged_by=['kani:' + h for h in hs])
+    failed = [(n, k) for n, k in obl if not ok(n, k)]
     # C01 is about panics, aborts and non-termination only: a function that fails NOTHING BUT
     # postconditions (its functional contract) still cannot panic - every callee precondition, index, arithmetic and
     # termination obligation in it was discharged - so such a failure belongs to the functional properties, not to C01.
@@ -614,7 +720,7 @@ def main():
         failed = [(n, k) for n, k in failed if n not in not_relevant]
     rlimit_hit = [d for d in run['diagnostics'] if 'rlimit' in d['message'] or 'Resource limit' in d['message']]
     discharged = len(obl) - len(failed)
-    per = [{'obligation': n, 'kind': k, 'backend': ('kani/cbmc complete' if k == 'kani' else 'kani/cbmc ' + k[5:] if k.startswith('kani') else 'verus/z3'), 'discharged': ok(n, k) or n in not_relevant, 'expect': ('fail' if k == 'nec' else 'fail only at the documented panic' if k == 'ref' else 'pass'),
+    per = [{'obligation': n, 'kind': k, 'backend': ('kani/cbmc complete' if (k == 'kani' or n in second) else 'kani/cbmc ' + k[5:] if k.startswith('kani') else 'verus/z3'), 'discharged': ok(n, k) or n in not_relevant, 'expect': ('fail' if k == 'nec' else 'fail only at the documented panic' if k == 'ref' else 'pass'),
             'time_ms': tab[n]['time_us'] // 1000, 'rlimit': tab[n]['rlimit'], 'source': ('callee closure' if n in auto_set else 'listed')} for n, k in obl]
     cov = {
         'obligations': len(obl), 'discharged': discharged,
@@ -628,6 +734,7 @@ def main():
         'inputs_sha256': info['inputs'], 'generated_sha256': info['generated_sha256'],
         'rewrites_applied': info['rewrites'], 'merge': info['merge'],
         'solver_stability': stability,
+        'discharged_by_second_back_end': second,
         'functional_only_failures_not_counted_for_this_property': not_relevant,
         'degraded_functions': [{'function': k, 'reason': v, 'effect': 'body not processed by the verifier on this tree; contract assumed for this run; no obligation of this property can reach it'} for k, v in degrade_why.items()],
         'samples': [{'obligation': n, 'kind': k} for n, k in obl[:5]],
@@ -643,7 +750,7 @@ def main():
     cov['contract_anchors_lost_in'] = sorted(lost_in)
     if failed:
         names = [n for n, k in failed]
-        gaps = annotation_gaps(text, info, names, degraded)
+        gaps = annotation_gaps(text, info, names, degraded, lost=set(lost_in))
         cov['annotation_gaps'] = gaps
         unsure = [n for n in names if not n.startswith('kani:') and (re.split(r'__nec_|__ref_', n.split('::')[-1])[0] in lost_in or n in gaps)]
         if unsure and len(unsure) == len(names):
